@@ -34,7 +34,7 @@ _PROG = {}
 
 def prog():
     if "p" not in _PROG:
-        _PROG["p"] = build.load_program("A", files=["src/bls12_381/curve.cpp", "src/bls12_381/fq2.cpp"], tag="c09")
+        _PROG["p"] = build.load_program("A", files=["src/bls12_381/curve.cpp", "src/bls12_381/fq2.cpp", "src/bls12_381/fr.cpp"], tag="c09")
     return _PROG["p"]
 
 
@@ -215,6 +215,47 @@ def install(I, F):
             return r
         I.add_intercept(B + r"Affine<.*" + A + r">::is_in_correct_subgroup_assuming_on_curve\(\) const", h_insub, "is_in_correct_subgroup")
     I.insub_calls = []
+
+    # ---- any other scalar multiplication used as a membership test: G1/G2::multiply and the Projective multiply_* family on an affine base.
+    # Their contract (C06) is [k]P for P in the order-r subgroup; the eigenvalue-accelerated entry points promise nothing outside it, so for a
+    # base outside the subgroup "result is the identity" is left unconstrained.  multiply_doubleadd* / multiply_wnaf are [k]P on every curve point.
+    R_ORD = 0x73eda753299d7d483339d80809a1d80553bda402fffe5bfeffffffff00000001
+    I.weak_calls = []
+    I.mul_results = {}
+
+    def h_mul_any(I_, name, args, site):
+        d = I_.prog.demangled.get(name, name)
+        deg = 2 if ("G2" in d.split("(")[0] or "Fq2" in d.split("(")[0]) else 1
+        sz = 48 * deg
+        if "Affine" not in d.split("(", 1)[1].split(",")[0]:
+            raise ExecError("unsupported", "scalar multiplication of a projective base inside decode: " + d[:80])
+        k = I_.load_bytes(args[2].obj, args[2].off, 32)
+        if not is_conc(k):
+            raise ExecError("unsupported", "scalar multiplication by a symbolic scalar inside decode")
+        x, y = rd(deg, args[1]), rd(deg, Ptr(args[1].obj, args[1].off + sz))
+        generic = "multiply_doubleadd" in d or "multiply_wnaf" in d
+        I_.mul_results[id(args[0].obj)] = (deg, x, y, k, generic, d)
+        I_._check_access(args[0], 3 * sz, 1, True)
+    I.add_intercept(B + r"(?:G[12]|Projective<.*?>)::multiply(?:_[a-z_]+)?(?:<.*>)?\(.*BigInt<256> const&(?:, int)?\)", h_mul_any, "scalar multiplication in decode")
+
+    def h_proj_is_zero(I_, name, args, site):
+        m = I_.mul_results.get(id(args[0].obj))
+        if m is None:
+            raise ExecError("unsupported", "Projective::is_zero on a value that is not the result of a scalar multiplication")
+        deg, x, y, k, generic, d = m
+        insub = F.uf[deg]["insub"](x, y)
+        F.axioms.append(z3.Implies(insub, y != 0))
+        if k % R_ORD == 0 and k != 0:
+            if generic and k == R_ORD:
+                r = insub                                      # [r]P == O on every curve point: the membership test itself
+                I_.insub_calls.append((deg, x, y, r))
+                return r
+            r = z3.Bool("mul_is_zero_%d" % len(I_.weak_calls))
+            F.axioms.append(z3.Implies(insub, r))             # contract on the subgroup only
+            I_.weak_calls.append((deg, x, y, r, d))
+            return r
+        raise ExecError("unsupported", "identity test of [k]P for k not a multiple of r inside decode")
+    I.add_intercept(B + r"Projective<.*>::is_zero\(\) const", h_proj_is_zero, "Projective::is_zero")
 
 
 def field_axioms(F):
@@ -433,6 +474,13 @@ def ob_canonical(which):
         ginf = I.load_bytes(out, 2 * 48 * deg, 1)
         if is_conc(ginf) and ginf == 1:
             continue
+        if not insub and I.weak_calls:
+            gx, gy, _ = read_affine(I, deg, out)
+            r, mdl = solve(I, list(path.pc) + [rb], ax, z3.Not(F.uf[deg]["insub"](gx, gy)), "accepted point is in the subgroup")
+            if r == z3.sat:
+                raise Violation("checks:%s:subgroup" % which, "validating decode (%s) decides membership with %s, whose contract is [k]P only on the order-r subgroup: "
+                                "a curve point outside the subgroup may be accepted" % (which, I.weak_calls[-1][4][:80]), {"encoding": which, "weak_subgroup": True})
+            continue
         if not insub:
             raise Violation("checks:%s:subgroup" % which, "validating decode (%s) accepts a point without the subgroup test" % which, {"encoding": which})
         gx, gy, _ = read_affine(I, deg, out)
@@ -452,9 +500,14 @@ def replay_canonical(res):
     (per 48-byte field: accepted bytes minus re-encoded bytes) is transplanted onto the encoding of a real point k*G and decoded natively;
     counterexamples that decode to the identity are replayed byte for byte."""
     ce = res.counterexample or {}
+    from engine import replay
+    if ce.get("weak_subgroup"):
+        out = replay.run(["decnonsub %s" % ce["encoding"]])[0]
+        ce["native_replay"] = {"command": "decnonsub %s" % ce["encoding"], "native_output": out,
+                               "meaning": "curve points outside the order-r subgroup (membership decided by a plain double-and-add by r in the driver) encoded and given to validating decode"}
+        return out.startswith("ACCEPTED-NONSUBGROUP")
     if "bytes" not in ce:
         return None
-    from engine import replay
     b, r = bytes.fromhex(ce["bytes"]), bytes.fromhex(ce["reencoded"])
     if r[0] & 0x40:
         cmd = "enccanon %s raw %s" % (ce["encoding"], ce["bytes"])
@@ -475,7 +528,47 @@ def replay_canonical(res):
     return out.startswith("NONCANONICAL")
 
 
+def ob_subgroup_test(deg):
+    """Affine::is_in_correct_subgroup_assuming_on_curve is 'multiply_doubleadd_restrict(*this, r) is the identity': exactly one scalar multiplication, by the
+    generic double-and-add (proved [k]P on every curve point by C06 loop:doubleadd), of *this, by the 256-bit constant r over all 256 bits, followed by
+    Projective::is_zero of that result, whose value is returned."""
+    P = prog()
+    A = "g1_b_coeff_var" if deg == 1 else "g2_b_coeff_var"
+    fname = P.find1(B + r"Affine<.*" + A + r">::is_in_correct_subgroup_assuming_on_curve\(\) const")
+    I = eir.Interp(P)
+    calls = []
+    flag = z3.Bool("result_is_identity")
+
+    def rec(I_, name, args, site):
+        d = I_.prog.demangled.get(name, name)
+        if d.startswith("llvm."):
+            return None
+        calls.append((d, list(args)))
+        if "::is_zero() const" in d:
+            return flag
+    I.add_intercept(r".*", rec, "callee")
+    me = Obj("P", 2 * 48 * deg + 16, "arg", 16, True)
+    ret = I.call_function(P.fn[fname], [Ptr(me, 0)])
+    R_ORD = 0x73eda753299d7d483339d80809a1d80553bda402fffe5bfeffffffff00000001
+    ok = len(calls) == 2 and "::multiply_doubleadd" in calls[0][0] and "BigInt<256>" in calls[0][0] and "::is_zero() const" in calls[1][0]
+    if ok:
+        m = calls[0][1]
+        k = I.load_bytes(m[2].obj, m[2].off, 32)
+        hb = m[3] if len(m) > 3 else 255
+        ok = (m[1].obj is me and m[1].off == 0 and is_conc(k) and k == R_ORD and is_conc(hb) and hb == 255 and calls[1][1][0].obj is m[0].obj and calls[1][1][0].off == m[0].off)
+    if ok:
+        s = z3.Solver()
+        rb = ret if isinstance(ret, z3.BoolRef) else (ret != 0 if z3.is_expr(ret) else z3.BoolVal(bool(ret)))
+        s.add(rb != flag)
+        ok = s.check() == z3.unsat
+    if not ok:
+        raise Violation("subgroup-test:G%d" % deg, "is_in_correct_subgroup_assuming_on_curve is not '[r]P by generic double-and-add is the identity': calls %r" % ([c[0][:70] for c in calls],), {})
+    return {"queries": 1, "paths": 1, "functions": [P.demangled[fname][:100]], "sample": "one multiply_doubleadd_restrict(*this, r, 255), is_zero of its result returned"}
+
+
 def register(chk):
+    chk.add("subgroup-test:G1", ob_subgroup_test, 1)
+    chk.add("subgroup-test:G2", ob_subgroup_test, 2)
     for which in CFG:
         for checked in (True, False):
             chk.add("roundtrip:%s:checked=%d:point" % (which, checked), ob_roundtrip, which, checked, False)
